@@ -467,6 +467,7 @@ Definition cases : list (rg_config * list pattern * obs * list string * list str
 		meta.CaseFiles = append(meta.CaseFiles, fn+".v")
 	}
 	meta.Distribution["result_classes"] = classCount
+	n += endToEnd(meta, outDir)
 	meta.Evaluations = n
 	meta.Distinct = len(distinct)
 	meta.Rule = "fault sequences: 0..3 patterns (explicit file, glob over 1..3 files, glob without match, malformed glob) over rule files of kind {valid with 1-2 groups tagged from {style,test,experimental,diagnostic,none}, dangling symlink, syntax error, DSL error, empty, unresolvable import} x failOn in {'', dsl, import, all, lists, unknown values} x legacy failOnError x 9 enable x 6 disable values; materialised on disk and loaded through linter.NewChecker('ruleguard'); observables = init error class, groups firing on a target with one trigger per group, skipped-file log lines. distinct_nontrivial = distinct (class, fired set, #skipped)"
